@@ -250,6 +250,18 @@ func (c *loopCloud) assign(name, eniID string, n int, six bool) ([]aliyunClient.
 	if have+n > c.cap4 {
 		c.w.viol("C08/cloud/assign-over-quota", fmt.Sprintf("%s(%s, %d) with %d addresses of that family recorded on the interface, %d allowed", name, eniID, n, have, c.cap4))
 	}
+	if c.w.faults == 0 {
+		// no call ever failed, so the record cannot legitimately be behind the cloud: the interface's real content counts
+		real := 0
+		for ip := range e.ips {
+			if strings.Contains(ip, ":") == six {
+				real++
+			}
+		}
+		if real+n > c.cap4 {
+			c.w.viol("C08/cloud/assign-over-quota", fmt.Sprintf("%s(%s, %d) with %d addresses of that family on the interface in the cloud (no call has failed), %d allowed", name, eniID, n, real, c.cap4))
+		}
+	}
 	m := c.shot(name)
 	if m == "before" {
 		return nil, errors.New("injected: " + name)
@@ -295,6 +307,9 @@ func (c *loopCloud) unassign(name, eniID string, ips []aliyunClient.IPSet) error
 		l = append(l, ip.IPAddress)
 	}
 	c.log = append(c.log, loopCall{name: name, eni: eniID, ips: l})
+	if len(l) >= 10 {
+		c.w.c.Count("loop-unassign-full-batch")
+	}
 	c.w.checkNotBound(name, eniID, l)
 	if c.shot(name) == "before" {
 		return errors.New("injected: " + name)
@@ -319,6 +334,8 @@ func (c *loopCloud) UnAssignIpv6AddressesV2(ctx context.Context, eniID string, i
 // ---------- the world ----------
 
 type loopWorld struct {
+	noFaults, wide bool
+	faults         int
 	c        *Ctx
 	r        *Rng
 	focus    string
@@ -395,6 +412,17 @@ func newLoopWorld(c *Ctx, r *Rng, focus string) *loopWorld {
 	w.en6 = r.Intn(3) == 0
 	w.maxP = r.Intn(4)
 	w.minP = r.Intn(w.maxP + 1)
+	// profiles: every third case has no injected fault at all (then record and cloud must agree at every quiet
+	// point, not only after a full synchronisation); every fifth has wide interfaces, so that one trim or one
+	// demand burst spans more than one batch (10) of addresses
+	w.noFaults = r.Intn(3) == 0
+	if r.Intn(5) == 0 {
+		w.wide = true
+		w.cap4 = 12 + r.Intn(8)
+		w.quota = 1 + r.Intn(2)
+		w.maxP = r.Intn(3)
+		w.minP = r.Intn(w.maxP + 1)
+	}
 	node := &networkv1beta1.Node{ObjectMeta: metav1.ObjectMeta{Name: "node-a"}}
 	node.Spec.NodeMetadata = networkv1beta1.NodeMetadata{RegionID: "r", InstanceType: "t", InstanceID: "i-1", ZoneID: "zone-a"}
 	node.Spec.NodeCap = networkv1beta1.NodeCap{Adapters: w.quota + 1, IPv4PerAdapter: w.cap4, IPv6PerAdapter: w.cap4}
@@ -528,22 +556,47 @@ func (w *loopWorld) forceFullSync() {
 func (w *loopWorld) runCase() {
 	r := w.r
 	names := []string{"a", "b", "c", "d", "e", "f", "g"}
+	if w.wide {
+		names = append(names, "h", "i", "j", "k", "l", "m", "n", "o", "p", "q", "r", "s", "t", "u", "v", "w")
+	}
 	steps := 6 + r.Intn(7)
 	for i := 0; i < steps; i++ {
-		for k := r.Intn(3); k > 0; k-- {
+		k := r.Intn(3)
+		if w.wide {
+			k = r.Intn(9) // bursts
+		}
+		leaving := w.wide && i > steps/2 // the second half of a wide case is mostly departures: one big trim
+		if w.wide && i < 3 {
+			k = 6 + r.Intn(8) // fill up first
+		}
+		if w.wide && i == steps-2 {
+			// the node is drained: every pod leaves at once and the agent reports all teardowns
+			var all []string
+			for name := range w.pods {
+				all = append(all, name)
+			}
+			sort.Strings(all)
+			for _, name := range all {
+				w.delPod(name)
+			}
+			w.reportTeardown()
+			k = 0
+		}
+		for ; k > 0; k-- {
 			name := names[r.Intn(len(names))]
 			if _, ok := w.pods[name]; ok {
-				if r.Intn(2) == 0 {
+				if r.Intn(2) == 0 || leaving {
 					w.delPod(name)
 				}
-			} else {
+			} else if !leaving || r.Intn(4) == 0 {
 				w.addPod(name)
 			}
 		}
 		if r.Intn(2) == 0 {
 			w.reportTeardown()
 		}
-		if r.Intn(3) == 0 {
+		if r.Intn(3) == 0 && !w.noFaults {
+			w.faults++
 			call := []string{"create", "attach", "wait", "assign4", "assign6", "unassign4", "delete", "detach", "describe"}[r.Intn(9)]
 			mode := []string{"before", "after"}[r.Intn(2)]
 			w.cloud.fail[call] = mode
@@ -567,6 +620,10 @@ func (w *loopWorld) runCase() {
 		if m == 0 && i > 2 {
 			break
 		}
+	}
+	if w.faults == 0 && last == 0 {
+		// no call ever failed: the record must equal the cloud without the help of a full synchronisation
+		w.checkAgreementAs("C08/loop/no-fault/", "with no failed call at all, at a quiet point")
 	}
 	w.forceFullSync()
 	// after the full synchronisation: again until two rounds in a row issue no cloud call
@@ -626,30 +683,34 @@ func (w *loopWorld) checkRollback() {
 
 // checkAgreement: after a full synchronisation record and cloud agree
 func (w *loopWorld) checkAgreement() {
+	w.checkAgreementAs("C08/loop/", "after a full synchronisation")
+}
+
+func (w *loopWorld) checkAgreementAs(prefix, when string) {
 	n := w.node()
 	w.cloud.mu.Lock()
 	defer w.cloud.mu.Unlock()
 	for id, e := range w.cloud.enis {
 		ni := n.Status.NetworkInterfaces[id]
 		if ni == nil {
-			w.viol("C08/loop/cloud-eni-not-recorded", fmt.Sprintf("after a full synchronisation %s (attached=%v) exists in the cloud and is not in the record", id, e.attached))
+			w.viol(prefix+"cloud-eni-not-recorded", fmt.Sprintf(when+": %s (attached=%v) exists in the cloud and is not in the record", id, e.attached))
 			continue
 		}
 		for ip := range e.ips {
 			if ni.IPv4[ip] == nil && ni.IPv6[ip] == nil {
-				w.viol("C08/loop/cloud-ip-not-recorded", fmt.Sprintf("after a full synchronisation %s has %s in the cloud and the record does not", id, ip))
+				w.viol(prefix+"cloud-ip-not-recorded", fmt.Sprintf(when+": %s has %s in the cloud and the record does not", id, ip))
 			}
 		}
 	}
 	for id, ni := range n.Status.NetworkInterfaces {
 		e := w.cloud.enis[id]
 		if e == nil {
-			w.viol("C08/loop/recorded-eni-not-in-cloud", fmt.Sprintf("after a full synchronisation the record has %s which the cloud does not", id))
+			w.viol(prefix+"recorded-eni-not-in-cloud", fmt.Sprintf(when+": the record has %s which the cloud does not", id))
 			continue
 		}
 		for ip := range ni.IPv4 {
 			if !e.ips[ip] {
-				w.viol("C08/loop/recorded-ip-not-in-cloud", fmt.Sprintf("after a full synchronisation the record has %s on %s which the cloud does not", ip, id))
+				w.viol(prefix+"recorded-ip-not-in-cloud", fmt.Sprintf(when+": the record has %s on %s which the cloud does not", ip, id))
 			}
 		}
 	}
@@ -731,7 +792,7 @@ func (w *loopWorld) checkSatisfied() {
 }
 
 func runIpamLoops(c *Ctx, focus string) {
-	n := c.Scale(12, 300)
+	n := c.Scale(64, 320)
 	var seeds []uint64
 	for i := 0; i < n; i++ {
 		seeds = append(seeds, c.R.U64())
@@ -744,7 +805,7 @@ func runIpamLoops(c *Ctx, focus string) {
 func runIpamLoopSeeds(c *Ctx, focus string, seeds []uint64) {
 	dwQuiet()
 	var mu sync.Mutex
-	sem := make(chan struct{}, 32)
+	sem := make(chan struct{}, 64) // a case mostly sleeps (the reconciler refuses to run twice within a second)
 	var wg sync.WaitGroup
 	for _, seed := range seeds {
 		wg.Add(1)
